@@ -20,6 +20,7 @@ import (
 	"time"
 
 	"github.com/refraction-networking/conjure/pkg/registrars/dns-registrar/encryption"
+	"github.com/refraction-networking/conjure/pkg/registrars/dns-registrar/requester"
 	pb "github.com/refraction-networking/conjure/proto"
 	log "github.com/sirupsen/logrus"
 	"google.golang.org/protobuf/proto"
@@ -39,6 +40,7 @@ type c13mResult struct {
 	Harness  string         `json:"harness"` // the harness itself failed (never an oracle failure)
 	Dump     string         `json:"dump"`
 	Trace    []string       `json:"trace"`
+	Ms       int64          `json:"ms"`
 }
 
 // c13mLimit only guards the harness against hanging for ever (a run that does not settle is a harness
@@ -55,6 +57,57 @@ type c13mFiles struct {
 	sub, cc, conf, gates string
 }
 
+// c13mCfg: a configuration of the registrar as far as the answers depend on it
+type c13mCfg struct {
+	ver  int
+	gens []int
+	cc   int
+}
+
+// c13mPredict: what the registrar answers to a request kind under a configuration - the harness's own account
+// of the documented behaviour (the API registrar replaces the generation of an outdated client by that of its
+// ClientConf; a generation has to be in the subnet file), checked against every probe round.
+func c13mPredict(k c13mKind, c c13mCfg) string {
+	in := func(g int) bool {
+		if g == c13mGenOld || g == c13mGenFuture {
+			return true
+		}
+		for _, x := range c.gens {
+			if x == g {
+				return true
+			}
+		}
+		return false
+	}
+	addrs := func() string {
+		var f []string
+		if k.v4 {
+			f = append(f, fmt.Sprintf("4=%d", c.ver))
+		}
+		if k.v6 {
+			f = append(f, fmt.Sprintf("6=%d", c.ver))
+		}
+		return "ok:" + strings.Join(f, ".")
+	}
+	switch k.entry {
+	case 'a':
+		g := int(k.gen)
+		if g < c.cc {
+			g = c.cc
+		}
+		if in(g) {
+			return addrs()
+		}
+		return "fail"
+	case 'd':
+		if in(int(k.gen)) {
+			return addrs()
+		}
+		return "fail"
+	}
+	return "ok"
+}
+
 type c13mRun struct {
 	e      *c13mEnv
 	res    *c13mResult
@@ -64,6 +117,12 @@ type c13mRun struct {
 	probes []map[string]string
 	full   []map[string]string
 	vers   [][]int // versions installed by valid reloads, per probe window (index = number of probes done when the reload started)
+	// the configuration a reload passes through between its two steps - the new subnet set with the ClientConf
+	// generation that was in force before -, per probe window
+	mid     [][]c13mCfg
+	gensOf  map[int][]int // version of a subnet file -> its generations
+	ccMeas  int           // ClientConf generation in force, as the last probe round measured it (-1: unknown)
+	curGens []int
 
 	next                  c13mFiles
 	conf, cc, sub         *c13mFeeder
@@ -80,6 +139,7 @@ type c13mRun struct {
 	stress                int // live stress workers
 	stressDone            chan struct{}
 	stopped               bool
+	wake                  chan struct{} // a request has been answered
 }
 
 func (r *c13mRun) count(k string) { r.res.Counts[k]++ }
@@ -91,6 +151,11 @@ func (r *c13mRun) trace(f string, a ...any) {
 }
 
 func (r *c13mRun) verdict(sig, what string, fatal bool) {
+	for _, v := range r.res.Verdicts {
+		if v.Sig == sig && v.What == what {
+			return
+		}
+	}
 	r.res.Verdicts = append(r.res.Verdicts, c13mVerdict{sig, what})
 	if fatal {
 		r.res.Fatal = true
@@ -108,7 +173,7 @@ func (r *c13mRun) harness(msg string) {
 
 func (r *c13mRun) outstanding() (n int, dns []*c13mReq) {
 	for _, q := range r.reqs {
-		if !q.done.Load() {
+		if q.started.Load() && !q.done.Load() {
 			n++
 			if q.kind.entry == 'd' || q.kind.entry == 'e' {
 				dns = append(dns, q)
@@ -157,6 +222,13 @@ func (r *c13mRun) settle() (c13mSnap, bool) {
 	deadline := time.Now().Add(c13mLimit)
 	var mismatchSince time.Time
 	for spin := 0; ; spin++ {
+		// a stop-the-world dump slows everything down: give a request that is on its way a moment to be answered first
+		if n, _ := r.outstanding(); n > 0 && spin < 40 {
+			select {
+			case <-r.wake:
+			case <-time.After(time.Duration(100+50*spin) * time.Microsecond):
+			}
+		}
 		if x := r.e.exited.Load(); x != nil {
 			r.verdict("C13:registrar-exited", "the registrar asked the process to exit while it was handling a reload or a request: "+x.(string), true)
 			return c13mSnap{}, false
@@ -268,6 +340,7 @@ func (r *c13mRun) reloadDone() {
 func (r *c13mRun) send(q *c13mReq) {
 	q.lo = len(r.probes) - 1
 	q.sentAt = time.Now()
+	q.started.Store(true)
 	r.reqs[q.id] = q
 	if !q.probe {
 		r.all = append(r.all, q)
@@ -280,6 +353,10 @@ func (r *c13mRun) send(q *c13mReq) {
 			}
 		}
 		q.done.Store(true)
+		select {
+		case r.wake <- struct{}{}:
+		default:
+		}
 	}()
 }
 
@@ -325,11 +402,38 @@ func (r *c13mRun) probe() bool {
 			}
 		}
 	}
-	if r.expCC >= 0 && r.curValid {
+	r.ccMeas = -1
+	if i := strings.Index(full[c13mEffectOld], ":cc="); i >= 0 {
+		if n, err := strconv.Atoi(full[c13mEffectOld][i+4:]); err == nil {
+			r.ccMeas = n
+		}
+	}
+	// the harness's account of the answers, checked against what was measured
+	if v := round[c13mEffectNew]; strings.HasPrefix(v, "ok:4=") && r.ccMeas >= 0 {
+		if ver, err := strconv.Atoi(v[5:strings.IndexByte(v, '.')]); err == nil {
+			if gens, ok := r.gensOf[ver]; ok {
+				for _, ks := range r.kinds {
+					k, _ := c13mParseKind(ks)
+					if want := c13mPredict(k, c13mCfg{ver, gens, r.ccMeas}); want != round[ks] {
+						r.count("harness-account-differs")
+						r.trace("harness account: %s under version %d / ClientConf %d is %q, measured %q", ks, ver, r.ccMeas, want, round[ks])
+					}
+				}
+			}
+		}
+	}
+	consistent := false
+	for _, g := range r.curGens {
+		if g == r.expCC {
+			consistent = true
+		}
+	}
+	if r.expCC >= 0 && r.curValid && consistent {
 		if !strings.HasSuffix(full[c13mEffectOld], fmt.Sprintf(":cc=%d", r.expCC)) {
 			r.verdict("C13:reload-ignored", fmt.Sprintf("a reload whose files are all valid (ClientConf generation %d) has completed, but an outdated client is answered %q", r.expCC, full[c13mEffectOld]), false)
 		}
 	}
+	r.expCC = -1
 	return true
 }
 
@@ -360,7 +464,8 @@ func (r *c13mRun) hup() bool {
 		}
 		subContent = c13mSubnets(k, gens)
 		r.lastSub, r.lastSubVer, r.subOnDisk = subContent, k, true
-		r.curVer = k
+		r.curVer, r.curGens = k, gens
+		r.gensOf[k] = gens
 	case f.sub == "bad":
 		subContent = "[Networks\n  this is not toml\n"
 		valid = false
@@ -374,7 +479,7 @@ func (r *c13mRun) hup() bool {
 			valid = false
 		}
 		subContent = r.lastSub
-		r.curVer = r.lastSubVer
+		r.curVer, r.curGens = r.lastSubVer, r.gensOf[r.lastSubVer]
 		r.subOnDisk = r.lastSub != ""
 	default:
 		r.harness("bad subnet spec " + f.sub)
@@ -435,6 +540,13 @@ func (r *c13mRun) hup() bool {
 	}
 	r.conf = c13mFeed(e.confFifo, []byte(e.confText(ccPath, f.conf != "ok")), strings.Contains(f.gates, "c"))
 	r.curValid = valid
+	if r.subOnDisk && (strings.HasPrefix(f.sub, "v") || f.sub == "same") && r.ccMeas >= 0 {
+		w := len(r.probes)
+		for len(r.mid) <= w {
+			r.mid = append(r.mid, nil)
+		}
+		r.mid[w] = append(r.mid[w], c13mCfg{ver: r.curVer, gens: r.curGens, cc: r.ccMeas})
+	}
 	r.hupPending, r.hupAt = true, time.Now()
 	r.count("reload:" + map[bool]string{true: "valid", false: "refused"}[valid])
 	if err := syscall.Kill(os.Getpid(), syscall.SIGHUP); err != nil {
@@ -560,6 +672,7 @@ func (r *c13mRun) event(ev string) bool {
 			}
 			go func() {
 				for _, q := range reqs {
+					q.started.Store(true)
 					r.e.perform(q)
 					q.done.Store(true)
 				}
@@ -695,6 +808,16 @@ func (r *c13mRun) judge() {
 					okVers[v] = true
 				}
 			}
+			if p < len(r.mid) {
+				// between the two steps of a reload: the new subnet set, the ClientConf generation still the old one
+				for _, c := range r.mid[p] {
+					j := c13mPredict(q.kind, c)
+					if j == q.judged && !allowed[j] {
+						r.count("answered-between-the-two-steps-of-a-reload")
+					}
+					allowed[j] = true
+				}
+			}
 		}
 		if allowed[q.judged] {
 			continue
@@ -727,7 +850,7 @@ func (r *c13mRun) judge() {
 
 func (e *c13mEnv) runScenario(idx int, line string) *c13mResult {
 	res := &c13mResult{Idx: idx, Line: line, Counts: map[string]int{}}
-	r := &c13mRun{e: e, res: res, reqs: map[string]*c13mReq{}, expVer: -1, expCC: -1, lastCCGen: -1}
+	r := &c13mRun{e: e, res: res, reqs: map[string]*c13mReq{}, expVer: -1, expCC: -1, lastCCGen: -1, wake: make(chan struct{}, 1), gensOf: map[int][]int{}, ccMeas: -1}
 	if !strings.HasPrefix(line, "main|") {
 		r.harness("bad scenario line")
 		return res
@@ -838,6 +961,7 @@ func c13mStart() (*c13mEnv, error) {
 		return nil, err
 	}
 	e.hook = &c13mHook{}
+	e.dnsPool = make(chan *requester.Requester, 64)
 	log.SetOutput(io.Discard)
 	log.AddHook(e.hook)
 	startup := true
@@ -871,7 +995,7 @@ func c13mStart() (*c13mEnv, error) {
 	for {
 		var found []c13mG
 		for _, g := range c13mDumpAll() {
-			if strings.Contains(g.text, "created by main.main ") {
+			if strings.Contains(g.text, "created by "+c13mMainPkg+".main ") {
 				found = append(found, g)
 			}
 		}
@@ -910,7 +1034,10 @@ func c13mChild(listFile string, from int) {
 	}
 	defer os.RemoveAll(e.dir)
 	for i := from; i < len(lines); i++ {
+		t0 := time.Now()
 		res := e.runScenario(i, lines[i])
+		res.Ms = time.Since(t0).Milliseconds()
+		res.Counts["goroutines"] = runtime.NumGoroutine()
 		emit(res)
 		if res.Fatal {
 			return
